@@ -45,7 +45,9 @@ def render(spec):
                 kw = p.get("kw", "%")
                 pieces.append("%s%s %s" % (p["qs"], kw, body))
         else:
-            if "sub" in p:
+            if "sub" in p and "unit" in p:          # an amount of a parenthesised mixture: "50 g (1 L H2O@1 // 1 g NaCl)"
+                pieces.append("%s%s%s (%s)" % (p["qs"], p.get("gap", " "), p["unit"], render(p["sub"])))
+            elif "sub" in p:
                 pieces.append(body)
             else:
                 pieces.append("%s%s%s %s" % (p["qs"], p.get("gap", " "), p["unit"], body))
@@ -60,7 +62,9 @@ def _parts_event(spec):
         if "sub" in p:
             s = "(" + render(p["sub"]) + ")" + (p.get("dens", "") if form in ("wt%", "vol%") else "")
             f = P.formula(s)
-            if form == "abs":
+            if form == "abs" and "unit" in p:
+                parts.append(comp_of(P.formula("(" + render(p["sub"]) + ")"), p["q"], p["unit"], 1))
+            elif form == "abs":
                 parts.append(comp_of(f, f.total_mass, "group", p.get("rep", 1)))
             elif form == "layer":
                 parts.append(comp_of(f, f.thickness, "group", p.get("rep", 1)))
